@@ -44,7 +44,7 @@ def run(index, rep, tier):
             if norm(c.func).endswith("Annotable.__deepcopy__"):
                 ncalls += 1
                 m = get_kwarg(c, "memo") or (c.args[1] if len(c.args) > 1 else None)
-                rep.check(m is not None and norm(m) == "memo", "R12.1", f.qualname, "delegation without memo: " + norm(c)[:60], fn_where(f, c), "%s delegates to Annotable.__deepcopy__ with its memo" % f.qualname,
+                rep.check(m is not None and "memo" in norm(m), "R12.1", f.qualname, "delegation without memo: " + norm(c)[:60], fn_where(f, c), "%s delegates to Annotable.__deepcopy__ with its memo" % f.qualname,
                           "%s delegates to Annotable.__deepcopy__ without forwarding its memo: a namespace-scoped copy loses the pre-seeded namespace/taxa and deep-copies them" % f.qualname)
         if f.name == "__deepcopy__":
             news = [n for n in walk_no_nested(f.node) if isinstance(n, ast.Assign) and isinstance(n.value, ast.Call) and (call_name(n.value) == "__new__" or (isinstance(n.value.func, ast.Attribute) and norm(n.value.func) == "self.__class__"))]
@@ -73,7 +73,7 @@ def run(index, rep, tier):
             skip = any(isinstance(i, ast.If) and "'_annotations'" in norm(i.test) and any(isinstance(x, ast.Continue) for x in i.body) for i in l.body) or \
                 any(isinstance(i, ast.If) and "'_annotations'" in norm(i.test) and "!=" in norm(i.test) for i in l.body)
             after = [c for c in calls_in(f.node) if call_name(c) == "deep_copy_annotations_from" and c.lineno > l.lineno]
-            okm = bool(after) and all((get_kwarg(c, "memo") is not None and norm(get_kwarg(c, "memo")) == "memo") or (len(c.args) > 1 and norm(c.args[1]) == "memo") for c in after)
+            okm = bool(after) and all((get_kwarg(c, "memo") is not None and "memo" in norm(get_kwarg(c, "memo"))) or (len(c.args) > 1 and "memo" in norm(c.args[1])) for c in after)
             rep.check(skip and okm, "R12.1", f.qualname, "_annotations handled separately", fn_where(f, l), "%s skips _annotations in the attribute loop and copies annotations afterwards with the memo" % f.qualname,
                       "%s does not skip `_annotations` in its attribute loop or does not call deep_copy_annotations_from(..., memo) afterwards: attribute-bound annotations of the copy keep pointing at the source object" % f.qualname)
     rep.floor("R12.1", "deepcopy call sites in copy-protocol functions", 15, ncalls)
@@ -85,33 +85,52 @@ def run(index, rep, tier):
     # ---- R12.2
     pop = index.function(DM + "taxonmodel.TaxonNamespace.populate_memo_for_taxon_namespace_scoped_copy")
     asg = {norm(n.targets[0]): norm(n.value) for n in walk_no_nested(pop.node) if isinstance(n, ast.Assign)}
-    ok = asg.get("memo[id(self)]") == "self" and asg.get("memo[id(taxon)]") == "taxon" and any(isinstance(l, ast.For) and norm(l.iter) in ("self._taxa", "self") for l in walk_no_nested(pop.node))
+    ploops = [l for l in walk_no_nested(pop.node) if isinstance(l, ast.For) and norm(l.iter) in ("self._taxa", "self")]
+    lv = norm(ploops[0].target) if ploops else "?"
+    ok = asg.get("memo[id(self)]") == "self" and asg.get("memo[id(%s)]" % lv) == lv and bool(ploops)
     rep.check(ok, "R12.2", pop.qualname, "maps %s" % asg, fn_where(pop), "populate_memo maps the namespace and every member taxon to itself", "populate_memo_for_taxon_namespace_scoped_copy no longer maps the namespace and each of its taxa to themselves: %s" % asg)
     for cq in SCOPED:
         f = index.function(cq + ".taxon_namespace_scoped_copy")
         cfg = cfg_of(f)
-        pops = [n for n in cfg.nodes if any(call_name(c) == "populate_memo_for_taxon_namespace_scoped_copy" and (norm(c.args[0]) if c.args else norm(get_kwarg(c, "memo") or ast.Constant(None))) == "memo" for c in node_calls(n))]
-        dcp = [n for n in cfg.nodes if any(call_name(c) == "__deepcopy__" and norm(get_kwarg(c, "memo") or (c.args[0] if c.args else ast.Constant(None))) == "memo" for c in node_calls(n))]
+        def _m(c):
+            a = get_kwarg(c, "memo") or (c.args[0] if c.args else None)
+            return norm(a) if a is not None else None
+        pops = [n for n in cfg.nodes if any(call_name(c) == "populate_memo_for_taxon_namespace_scoped_copy" and _m(c) for c in node_calls(n))]
+        dcp = [n for n in cfg.nodes if any(call_name(c) == "__deepcopy__" and _m(c) for c in node_calls(n))]
+        mset = {_m(c) for n in pops + dcp for c in node_calls(n) if call_name(c) in ("populate_memo_for_taxon_namespace_scoped_copy", "__deepcopy__")}
+        if len(mset) != 1:
+            pops = []
         ids = {n.id for n in pops}
         ok = bool(pops) and bool(dcp) and all(cfg.dominated_by(d, lambda n: n.id in ids) for d in dcp)
         rep.check(ok, "R12.2", f.qualname, "populate dominates __deepcopy__(memo=memo)", fn_where(f), "%s pre-seeds the memo with its namespace before deep-copying with that memo" % f.qualname,
                   "%s no longer pre-seeds the memo with the namespace and its taxa before `__deepcopy__(memo=memo)`: the 'namespace-scoped' copy gets its own copy of the namespace and taxa" % f.qualname)
         g = index.function(cq + "._clone_from")
         cfg = cfg_of(g)
-        dc = [n for n in cfg.nodes if any(norm(c.func) == "copy.deepcopy" and _memo_arg(c) is not None and norm(_memo_arg(c)) == "memo" for c in node_calls(n))]
-        nsmap = [n for n in cfg.nodes if n.kind == "stmt" and isinstance(n.ast, ast.Assign) and norm(n.ast.targets[0]).startswith("memo[id(") and "taxon_namespace" in norm(n.ast.targets[0])]
-        txmap = [n for n in cfg.nodes if n.kind == "stmt" and isinstance(n.ast, ast.Assign) and norm(n.ast.targets[0]) == "memo[id(t1)]"]
+        dc = [n for n in cfg.nodes if any(norm(c.func) == "copy.deepcopy" and _memo_arg(c) is not None and isinstance(_memo_arg(c), ast.Name) for c in node_calls(n))]
+        mv = [norm(_memo_arg(c)) for n in dc for c in node_calls(n) if norm(c.func) == "copy.deepcopy"]
+        mv = mv[0] if mv else "memo"
+        loops = [l for l in walk_no_nested(g.node) if isinstance(l, ast.For) and "taxon_namespace" in norm(l.iter)]
+        lvars = {norm(l.target) for l in loops}
+        nsmap = [n for n in cfg.nodes if n.kind == "stmt" and isinstance(n.ast, ast.Assign) and norm(n.ast.targets[0]).startswith(mv + "[id(") and "taxon_namespace" in norm(n.ast.targets[0])]
+        txmap = [n for n in cfg.nodes if n.kind == "stmt" and isinstance(n.ast, ast.Assign) and any(norm(n.ast.targets[0]) == "%s[id(%s)]" % (mv, v) for v in lvars)]
         nid = {n.id for n in nsmap}
         tid = {n.id for n in txmap}
         ok = bool(dc) and bool(nsmap) and len(txmap) >= 2 and all(cfg.dominated_by(d, lambda n: n.id in nid) for d in dc)
         # both branches of the namespace comparison map every taxon (loop bodies)
-        loops = [l for l in walk_no_nested(g.node) if isinstance(l, ast.For) and "taxon_namespace" in norm(l.iter)]
-        ok = ok and len(loops) >= 2 and all(any(isinstance(x, ast.Assign) and norm(x.targets[0]) == "memo[id(%s)]" % norm(l.target) for x in ast.walk(l)) for l in loops)
+        ok = ok and len(loops) >= 2 and all(any(isinstance(x, ast.Assign) and norm(x.targets[0]) == "%s[id(%s)]" % (mv, norm(l.target)) for x in ast.walk(l)) for l in loops)
         rep.check(ok, "R12.2", g.qualname, "namespace and taxa mapped before deepcopy", fn_where(g), "%s maps the namespace and every taxon in the memo before its deepcopy" % g.qualname,
                   "%s no longer maps the source namespace and each of its taxa in the memo before `copy.deepcopy(src, memo)`: the copy constructor duplicates (or mis-shares) the namespace and taxa" % g.qualname)
-        same = [n for n in walk_no_nested(g.node) if isinstance(n, ast.Assign) and norm(n.targets[0]) == "memo[id(t1)]"]
-        vals = sorted(norm(n.value) for n in same)
-        rep.check(vals == ["t1", "t2"], "R12.2", g.qualname, "taxon mapping values %s" % vals, fn_where(g), "same namespace: taxon -> itself; other namespace: taxon -> require_taxon(label)", "%s maps source taxa to %s" % (g.qualname, vals))
+        kinds = []
+        for l in loops:
+            lv_ = norm(l.target)
+            for x in ast.walk(l):
+                if isinstance(x, ast.Assign) and norm(x.targets[0]) == "%s[id(%s)]" % (mv, lv_):
+                    if norm(x.value) == lv_:
+                        kinds.append("itself")
+                    else:
+                        src = [d for d in ast.walk(l) if isinstance(d, ast.Assign) and norm(d.targets[0]) == norm(x.value)]
+                        kinds.append("require_taxon(label)" if src and isinstance(src[0].value, ast.Call) and call_name(src[0].value) == "require_taxon" else "other:" + norm(x.value))
+        rep.check(sorted(kinds) == ["itself", "require_taxon(label)"], "R12.2", g.qualname, "taxon mapping kinds %s" % sorted(kinds), fn_where(g), "same namespace: taxon -> itself; other namespace: taxon -> require_taxon(label)", "%s maps source taxa to %s" % (g.qualname, sorted(kinds)))
 
     # ---- R12.3
     c08.thin_clone_rule(index, rep, "R12.3")
